@@ -221,6 +221,10 @@ pub enum EntryAct {
 #[derive(Clone, Copy, Debug, PartialEq, Eq, Hash, Serialize, Deserialize)]
 pub enum Nav {
     At(PRef),
+    /// view_at / view_mut_at on the prefix cut by 1..=8 bits: usually a virtual position on an edge
+    AtCut(PRef, u8),
+    /// view_at / view_mut_at on an explicit prefix (used by the systematic root sweep)
+    AtRaw(Raw),
     Find(PRef),
     FindExact(PRef),
     FindLpm(PRef),
@@ -381,4 +385,12 @@ pub fn strip_noise<T: Serialize + serde::de::DeserializeOwned>(c: &T) -> T {
     let mut v = serde_json::to_value(c).expect("serialize case");
     walk(&mut v);
     serde_json::from_value(v).expect("deserialize case")
+}
+
+/// the prefix `p` of the universe truncated by `(k % 8) + 1` bits (never below length 0)
+pub fn resolve_cut(uni: &[Raw], p: PRef, k: u8, width: u8) -> Raw {
+    let r = resolve(uni, p, width);
+    let cut = (k % 8) + 1;
+    let len = r.len.saturating_sub(cut);
+    Raw { bits: r.bits, len }
 }
